@@ -690,6 +690,46 @@ func genSpec(r *hx.Rng) Spec {
 			s.Faces = append(s.Faces, face)
 		}
 	}
+	// a face soup: as many vertex records as face corners (3 per triangle, 6 per quad), faces in any order
+	if s.HasFace && len(s.Faces) > 0 && r.Chance(1, 4) {
+		corners, in := 0, true
+		for _, f := range s.Faces {
+			for j, ws := range f {
+				if n := s.FProps[j].Name; n == "vertex_indices" || n == "vertex_index" {
+					switch len(ws) {
+					case 3:
+						corners += 3
+					case 4:
+						corners += 6
+					default:
+						in = false
+					}
+				}
+			}
+		}
+		if in && corners <= 18 {
+			s.Verts = nil
+			for i := 0; i < corners; i++ {
+				rec := make([]uint64, len(s.VProps))
+				for j, p := range s.VProps {
+					rec[j] = genWord(r, p.Ty, ascii)
+				}
+				s.Verts = append(s.Verts, rec)
+			}
+			perm := r.Perm(corners)
+			k := 0
+			for _, f := range s.Faces {
+				for j := range f {
+					if n := s.FProps[j].Name; n == "vertex_indices" || n == "vertex_index" {
+						for m := range f[j] {
+							f[j][m] = uint64(perm[k%corners])
+							k++
+						}
+					}
+				}
+			}
+		}
+	}
 	// noise
 	s.CRLF = r.Chance(1, 4)
 	nlines := len(headerLines(s))
@@ -786,8 +826,12 @@ const keyUcharRaw = "ply:ascii-uchar-scalar-raw"
 func specCase(s Spec, kind string) hx.Case {
 	normalise(&s)
 	data := render(s)
+	return specCaseOut(s, kind, data, plyx.SafeRead(data))
+}
+
+// specCaseOut: the case for abstract file s, rendered as data, on which the implementation came back with out.
+func specCaseOut(s Spec, kind string, data []byte, out plyx.Outcome) hx.Case {
 	c := hx.Case{Kind: kind, Desc: s}
-	out := plyx.SafeRead(data)
 	if os.Getenv("VERIF_DEBUG") != "" {
 		fmt.Fprintf(os.Stderr, "%s: %s %s\n", kind, out.Class, out.Msg)
 	}
@@ -835,6 +879,31 @@ func specCase(s Spec, kind string) hx.Case {
 			c.FailKey = "ply:read-" + out.Class
 		}
 	}
+	return c
+}
+
+// Pair: two files read one after the other through the package-level reader.  "retained": the mesh returned for the
+// first file is rendered only after the second file has been read (a result must not live in storage the next call
+// reuses); "again": the first file is read once more after the second (nothing of one call may carry over into the next).
+// Either way the case is the first file with that outcome, judged in Coq like every other file.
+type Pair struct {
+	First  Spec   `json:"first"`
+	Second Spec   `json:"second"`
+	Mode   string `json:"mode"` // retained | again
+}
+
+func pairCase(p Pair) hx.Case {
+	normalise(&p.First)
+	normalise(&p.Second)
+	d1, d2 := render(p.First), render(p.Second)
+	out := plyx.SafeRead(d1)
+	plyx.SafeRead(d2)
+	if p.Mode == "again" {
+		out = plyx.SafeRead(d1)
+	}
+	c := specCaseOut(p.First, p.Mode, d1, out)
+	c.Desc = p
+	c.Key = p.Mode + ":" + c.Key
 	return c
 }
 
@@ -1023,6 +1092,58 @@ func systematic() []Spec {
 	return out
 }
 
+// S6: sizes that coincide.  Per-corner texture coordinates force one vertex per corner; here the number of corners
+// equals (or is one triangle away from) the number of vertex records while the faces do not list the vertices in
+// order, and the vertices carry more than a position.
+func coinciding() []Spec {
+	var out []Spec
+	r := hx.NewRng(0xC0856)
+	props := []VProp{vp("float", "x"), vp("float", "nx"), vp("float", "y"), vp("float", "ny"), vp("float", "z"), vp("float", "nz"), vp("int", "id")}
+	idx := FProp{Ct: "uchar", Lt: "int", Name: "vertex_indices", CtAlias: "uchar", LtAlias: "int"}
+	tex := FProp{Ct: "uchar", Lt: "float", Name: "texcoord", CtAlias: "uchar", LtAlias: "float"}
+	type fc struct {
+		nv    int
+		faces [][]uint64
+		tex   bool
+	}
+	for fi, f := range []string{"ascii", "binary_little_endian", "binary_big_endian"} {
+		for ci, c := range []fc{
+			{6, [][]uint64{{3, 4, 5}, {0, 1, 2}}, true}, {6, [][]uint64{{5, 3, 1, 0}}, true}, {3, [][]uint64{{2, 0, 1}}, true},
+			{3, [][]uint64{{0, 1, 2}}, true}, {9, [][]uint64{{8, 7, 6, 5}, {0, 2, 1}}, true}, {6, [][]uint64{{1, 0, 2}, {5, 4, 3}}, false},
+			{5, [][]uint64{{4, 3, 2}, {1, 0, 4}}, true}, {7, [][]uint64{{6, 5, 4}, {3, 2, 1}}, true}, {6, [][]uint64{{0, 0, 0}, {5, 5, 5}}, true},
+			{12, [][]uint64{{11, 10, 9, 8}, {7, 6, 5, 4}}, true},
+		} {
+			s := sysSpec(f, props, r, c.nv)
+			for i := range s.Verts {
+				s.Verts[i][6] = uint64(100 + i)
+			}
+			s.HasFace = true
+			s.FProps = []FProp{idx}
+			if c.tex {
+				s.FProps = []FProp{idx, tex}
+				if (ci+fi)%2 == 1 {
+					s.FProps = []FProp{tex, idx}
+				}
+			}
+			for qi, q := range c.faces {
+				face := make([][]uint64, len(s.FProps))
+				for j, p := range s.FProps {
+					if p.Name == "texcoord" {
+						for k := 0; k < 2*len(q); k++ {
+							face[j] = append(face[j], uint64(math.Float32bits(float32(qi*8+k+1)/32)))
+						}
+					} else {
+						face[j] = q
+					}
+				}
+				s.Faces = append(s.Faces, face)
+			}
+			out = append(out, s)
+		}
+	}
+	return out
+}
+
 func corner() []Spec {
 	xyz := []VProp{vp("float", "x"), vp("float", "y"), vp("float", "z")}
 	tri := FProp{Ct: "uchar", Lt: "int", Name: "vertex_indices", CtAlias: "uchar", LtAlias: "int"}
@@ -1068,22 +1189,52 @@ func main() {
 	run := hx.ParseFlags("C08", "Check.C08")
 	run.ShardMax = 100 // a shard of 250 files needs 1.2 GB in coqc; 16 run in parallel
 	for _, in := range run.Inputs() {
-		var s Spec
-		if err := json.Unmarshal(in.Raw, &s); err == nil && len(s.VProps) > 0 {
-			run.Add(specCase(s, in.Kind))
+		var probe struct {
+			Big   bool   `json:"big"`
+			Mode  string `json:"mode"`
+			First *Spec  `json:"first"`
+		}
+		json.Unmarshal(in.Raw, &probe)
+		switch {
+		case probe.Big:
+			var d BigDesc
+			if err := json.Unmarshal(in.Raw, &d); err == nil && len(d.VProps) > 0 {
+				run.Add(bigCase(d, in.Kind))
+			}
+		case probe.First != nil:
+			var p Pair
+			if err := json.Unmarshal(in.Raw, &p); err == nil && len(p.First.VProps) > 0 {
+				run.Add(pairCase(p))
+			}
+		default:
+			var s Spec
+			if err := json.Unmarshal(in.Raw, &s); err == nil && len(s.VProps) > 0 {
+				run.Add(specCase(s, in.Kind))
+			}
 		}
 	}
 	if run.Replay != "" {
 		run.Finish()
 		return
 	}
+	// files past internal block sizes are costly to evaluate: they are spread evenly over the case list (and so over
+	// the shards that coqc evaluates in parallel)
+	var small, big []hx.Case
 	for _, s := range corner() {
-		run.Add(specCase(s, "corner"))
+		small = append(small, specCase(s, "corner"))
 	}
 	for _, s := range systematic() {
-		run.Add(specCase(s, "systematic"))
+		small = append(small, specCase(s, "systematic"))
+	}
+	for _, s := range coinciding() {
+		small = append(small, specCase(s, "systematic"))
+		run.Count("systematic:corners-vs-vertices")
+	}
+	for _, d := range systematicBig() {
+		big = append(big, bigCase(d, "big-systematic"))
 	}
 	r := hx.NewRng(run.Seed)
+	var prev *Spec
 	for i := 0; i < run.N; i++ {
 		s := genSpec(r)
 		kind := "spec"
@@ -1104,6 +1255,9 @@ func main() {
 			for _, p := range s.FProps {
 				if p.Name == "texcoord" {
 					run.Count("with-texcoord")
+					if corners(s) == len(s.Verts) && corners(s) > 0 {
+						run.Count("with-texcoord:corners=vertices")
+					}
 				}
 			}
 		}
@@ -1131,12 +1285,56 @@ func main() {
 				run.Count("bin-list:" + p.Ct + "/" + p.Lt)
 			}
 		}
-		run.Add(c)
+		small = append(small, c)
 		if i%4 == 0 && s.Cut == 0 {
 			if hc, ok := headerCase(s); ok {
-				run.Add(hc)
+				small = append(small, hc)
 			}
+		}
+		// two files through the same reader: the first one's mesh rendered after / the first one read again after the second
+		if i%15 == 7 && s.Cut == 0 && prev != nil && outside(s) == "" && outside(*prev) == "" {
+			mode := hx.Pick(r, []string{"retained", "again"})
+			small = append(small, pairCase(Pair{First: *prev, Second: s, Mode: mode}))
+			run.Count("pair:" + mode)
+		}
+		if s.Cut == 0 {
+			cp := s
+			prev = &cp
+		}
+		// a random layout with a record count around a power-of-two number of body bytes
+		if i%60 == 22 {
+			d := genBig(r)
+			big = append(big, bigCase(d, "big"))
+			run.Count(fmt.Sprintf("big:%s", d.Fmt))
+		}
+	}
+	total := len(small) + len(big)
+	si, bi := 0, 0
+	for i := 0; i < total; i++ {
+		if bi < len(big) && ((i+1)*len(big)/total > i*len(big)/total || si >= len(small)) {
+			run.Add(big[bi])
+			bi++
+		} else {
+			run.Add(small[si])
+			si++
 		}
 	}
 	run.Finish()
+}
+
+// corners: face corners after tessellation (3 per triangle, 6 per quad).
+func corners(s Spec) int {
+	n := 0
+	for _, f := range s.Faces {
+		for j, ws := range f {
+			if nm := s.FProps[j].Name; nm == "vertex_indices" || nm == "vertex_index" {
+				if len(ws) == 4 {
+					n += 6
+				} else {
+					n += 3
+				}
+			}
+		}
+	}
+	return n
 }
